@@ -312,6 +312,35 @@ pub fn run(args: &Args) -> i32 {
         });
     }
 
+    // 2b'. how a pad message is cut into chunks: every chunk size 1..=120 and the layout whose last chunk takes the
+    //      remainder on top of a full chunk (last chunk longer than the others: legal, only non-final chunks must agree)
+    {
+        let tiny = bases.iter().find(|b| b.0.starts_with("a single wire")).unwrap().1.clone();
+        let (board, chip, req, chans) = tiny.pads[0].clone();
+        let chans: Vec<(u16, Vec<i16>)> = chans.iter().map(|(ro, w)| { let mut w = w.clone(); w.resize(req as usize, PAD_BASELINE); (*ro, w) }).collect();
+        let payload = pwb_payload(board, chip, req, &chans);
+        let l = payload.len();
+        let mut wire_banks: Banks = tiny.encode();
+        wire_banks.retain(|b| !b.0.starts_with("PC"));
+        let sizes: Vec<usize> = (1..=120).chain([l / 2, l / 2 + 1, l - 1, l]).collect();
+        rep.run("chunk-layouts", sizes.len() as u64 * 2, 300, true, "the pad message of the single wire + single pad event cut into chunks of every size 1..=120 (and about half / all of it) x {last chunk shorter, last chunk longer}", |k, loc| {
+            let s = sizes[(k / 2) as usize];
+            let long_last = k % 2 == 1;
+            let n = if long_last { l / s } else { l.div_ceil(s) };
+            if n == 0 || (long_last && (n < 2 || l % s == 0)) {
+                return;
+            }
+            let mut banks = wire_banks.clone();
+            let mut off = 0;
+            for i in 0..n {
+                let len = if i + 1 == n { l - off } else { s };
+                banks.push((format!("PC{board}"), ref_chunk_encode(&RefChunk { device_id: pwb_board(board).2, packet_sequence: 0, channel_sequence: 0, chip, flags: (i + 1 == n) as u8, chunk_id: i as u16, payload: payload[off..off + len].to_vec() })));
+                off += len;
+            }
+            evaluate(SIM_RUN, &banks, json!({"chunk_size": s, "chunks": n, "last_chunk_longer": long_last}), loc);
+        });
+    }
+
     // 2c. which wires carry data: blocks at and around the 255/0 seam and the pad-column boundaries, alone and together
     {
         let blocks: Vec<Vec<usize>> = vec![vec![0], vec![255], vec![0, 255], vec![254, 255], vec![0, 1], vec![255, 0, 1], vec![253, 254, 255, 0], vec![7, 8], vec![100, 101], vec![128], vec![1], vec![254], (248..=255).collect(), (0..=7).collect(), (250..=255).chain(0..=5).collect()];
